@@ -422,7 +422,7 @@ class Unit:
         if not fn.no_std_rewrites:
             std_rewrites(ssl)
         for rw in fn.sig_rewrites:
-            ssl.sub(rw[0], rw[1], rw[2], require=True)
+            ssl.sub(rw[0], rw[1], rw[2], require=not (len(rw) > 3 and rw[3] == 'opt'))
         if fn.emit_name and not fn.region:
             ssl.sub('R-rename', r'\bfn\s+' + re.escape(fn.name) + r'\b', 'fn ' + fn.emit_name, count=1, require=True)
         if fn.ret:
@@ -542,8 +542,11 @@ class Unit:
                     lines.append((f"{qual}/loop{ordinal}/decreases", f"            decreases {spec['decreases']},\n"))
                 for cid, t in lines:
                     inserts.append((open_pos, t, ('gen', 'kw') if cid == 'gen' else ('clause', cid)))
-                if spec.get('label'):
-                    pass
+                if spec.get('at_end'):
+                    # proof step right before the closing brace of the loop body (structural anchor: independent of the statements)
+                    close = match_close(text, mask, open_pos)
+                    lab = spec.get('at_end_label')
+                    inserts.append((close, '\n' + spec['at_end'].strip('\n') + '\n', ('clause', f"{qual}/{lab}/hint_loopend{ordinal}" if lab else f"{qual}/hint_loopend{ordinal}")))
         if fn.prologue:
             inserts.append((text.index('{') + 1, '\n' + fn.prologue.strip('\n') + '\n', ('clause', f"{qual}/prologue")))
         for where, lst in (('before', fn.before), ('after', fn.after)):
